@@ -13,6 +13,8 @@ def sh(cmd, cwd=None, timeout=1800):
 cases = []
 for m in sorted(glob.glob("/verif/seeded/*/meta.json")):
     meta = json.load(open(m))
+    if meta.get("obsolete"):
+        continue
     det = meta.get("detection", {})
     props = [meta.get("property")] + [k for k, v in det.items() if v.get("exit") == 1]
     if prop in props:
